@@ -73,7 +73,7 @@ func dialWS(ps *server, query string, frames []zzmodels.WsMsg) (received []zzmod
 		c.WriteMessage(f.Mt, f.Data)
 		time.Sleep(20 * time.Millisecond)
 	}
-	time.Sleep(80 * time.Millisecond)
+	time.Sleep(300 * time.Millisecond)
 	return nil
 }
 
@@ -293,4 +293,36 @@ func VerifH_C05_ws_refused() {
 	if len(got) == 1 && len(got[0].Data) >= 2 {
 		verif.Assert(string(got[0].Data[2:]) == "Unsupported protocol version", "carrying the documented text")
 	}
+}
+
+// VerifH_C08_probe_races_listener: the upgrade probe is already on the wire when the
+// WebSocket is accepted, and the goroutine that accepted it is descheduled right before it
+// attaches the upgrade listeners (at the first debug-log call of MaybeUpgrade): the
+// candidate's reader goroutine must not consume the probe before anybody listens.
+func VerifH_C08_probe_races_listener() {
+	ps := NewServer(config.DefaultServerOptions()).(*server)
+	hctx, _ := newCtx("GET", "/engine.io/")
+	hctx.Query().Set("transport", transports.POLLING)
+	hctx.Query().Set("EIO", "4")
+	_, tr := ps.Handshake(transports.POLLING, hctx)
+	verif.Assume(tr != nil)
+	sock, _ := ps.Clients().Load(tr.Sid())
+	verif.Event("the accepting goroutine is descheduled", func() {
+		if verif.Symbolic() {
+			verif.Settle()
+		} else {
+			time.Sleep(120 * time.Millisecond)
+		}
+	})
+	verif.InjectBudget(1)
+	got := dialWS(ps, "EIO=4&transport=websocket&sid="+tr.Sid(), []zzmodels.WsMsg{{ws.TextMessage, []byte("2probe")}})
+	verif.InjectBudget(0)
+	probes := 0
+	for _, m := range got {
+		if string(m.Data) == "3probe" {
+			probes++
+		}
+	}
+	verif.Assert(probes == 1, "a candidate that follows the protocol gets its probe answered")
+	verif.Assert(sock.ReadyState() == "open", "the session stays open")
 }
